@@ -23,13 +23,26 @@ import dynetx as dn
 from dynetx.utils.transform import compact_timeslot
 
 from .core import Model, histories, run_history, state_key, Collector, _j
+from .core import sorted          # tolerant of mixed-type node ids (ordered by repr)
 
 STR_NODES = {1: 'a', 2: u'\xe9', 3: 'B', 7: 'iso7', 8: u'\xfc8', 9: 'z'}     # non-ascii ids make the encoding observable
 TARGETS = ('plain', 'gz', 'bz2', 'fileobj', 'bytesio')
 DELIMS = (' ', ',', '\t')
 ENCODINGS = ('utf-8', 'latin-1')
 CONFIGS = list(itertools.product(TARGETS, DELIMS, ENCODINGS))
-NODETYPES = {'int': int, 'str': str}
+def _label_lookup(x):
+    # a converter that fails with KeyError (a label -> id table), as users pass for nodetype
+    return {'1': 1, '2': 2, '3': 3}[x]
+
+
+def _positive_int(x):
+    v = int(x)
+    if v < 0:
+        raise ArithmeticError('negative')
+    return v
+
+
+NODETYPES = {'int': int, 'str': str, 'lookup': _label_lookup, 'positive': _positive_int}
 
 
 # ------------------------------------------------------------------------------------------- shared helpers
@@ -1191,6 +1204,11 @@ def c18_reader_noise_and_compaction(tier, seed):
                                           ('interactions', 'timestamp t', ('1', '2', '+', 'z')), ('interactions', "timestamp t of '-'", ('1', '2', '-', 'z'))):
                     col.seen(('typeerror', fmt, what, delim), True)
                     _c18_type_error(col, fmt, j.join(fields) + '\n', delim, 'int', what)
+                    if what.startswith('node'):
+                        # converters that fail with something other than ValueError (KeyError from a lookup table, ArithmeticError)
+                        col.seen(('typeerror-lookup', fmt, what, delim), True)
+                        _c18_type_error(col, fmt, j.join(fields) + '\n', delim, 'lookup', what + ' (converter raises KeyError)')
+                        _c18_type_error(col, fmt, j.join(('-5' if f in ('x', 'y') else f) for f in fields) + '\n', delim, 'positive', what + ' (converter raises ArithmeticError)')
             # ---- compact_timeslot
             universe = list(range(-3, 4))
             sets = [list(c) for n in range(0, 8) for c in itertools.combinations(universe, n)]
